@@ -85,7 +85,18 @@ func runC06(r *Runner, tier string, rng *Rng) {
 				r.St.Count("around_now")
 			case 4: // forms Go accepts although the layout string does not show them
 				t := now.Add(time.Duration(rng.Intn(2000)-1000) * time.Hour)
-				switch rng.Intn(4) {
+				switch rng.Intn(6) {
+				case 4, 5:
+					// TODAY (or a neighbouring day) with a ONE-DIGIT hour: such a stamp is not fixed-width,
+					// it orders as an instant, not as a string (seeded change c06-expiry-compared-as-strings)
+					day := now.Add(time.Duration(rng.Intn(3)-1) * 24 * time.Hour * time.Duration(rng.Intn(2)))
+					s = fmt.Sprintf("%sT%d:%02d:%02dZ", day.Format("2006-01-02"), rng.Intn(10), rng.Intn(60), rng.Intn(60))
+					if pt, err := time.Parse("2006-01-02T15:04:05Z", s); err == nil {
+						if d := pt.Sub(now); d > -15*time.Second && d < 15*time.Second {
+							s = fmt.Sprintf("%sT%d:%02d:%02dZ", day.Format("2006-01-02"), (now.Hour()+5)%10, 0, 0)
+						}
+					}
+					r.St.Count("one_digit_hour_today")
 				case 0:
 					s = t.Format("2006-01-02T3:04:05Z")
 				case 1:
@@ -126,5 +137,5 @@ func runC06(r *Runner, tier string, rng *Rng) {
 		flush()
 	}
 	defer runC06Pipeline(r, tier, rng)
-	r.St.Rule = "expiry strings: valid stamps from year 0000 to 9999, stamps 10 s .. 400 days around now on either side, forms Go accepts beyond the layout (1-digit hour, fractional seconds), other date layouts, calendar edge cases, single-character mutations; stamps written 1-2 s ahead of the clock and checked 3.2 s later in the same process (the clock must be read at every check); 16 strings per evaluation, evaluated with the process's local time zone set to UTC, UTC-11 .. UTC+13; compared: parse verdict (through ValidateMetablock) and VerifyLayoutExpiration verdict against the clock. Class = batch verdict vector."
+	r.St.Rule = "expiry strings: valid stamps from year 0000 to 9999, stamps 10 s .. 400 days around now on either side, forms Go accepts beyond the layout (1-digit hour - also on today's date, where the string order and the time order differ -, fractional seconds), other date layouts, calendar edge cases, single-character mutations; stamps written 1-2 s ahead of the clock and checked 3.2 s later in the same process (the clock must be read at every check); 16 strings per evaluation, evaluated with the process's local time zone set to UTC, UTC-11 .. UTC+13; compared: parse verdict (through ValidateMetablock) and VerifyLayoutExpiration verdict against the clock. Class = batch verdict vector."
 }
